@@ -213,6 +213,22 @@ def table_checks():
             mrule.Rule(rn)
         except Exception as ex:  # noqa
             acc.add_problem(problem("rule_construct_failed", {"rule": rn}, expected="a Rule", observed=repr(ex), rule=rn))
+        # 1b. the rule is usable as it is written: a node with valid content, attributes and the shortest valid child
+        # sequence passes Rule(rn).validate_rule in both modes (this binds "only implemented content-rule names" to the
+        # dispatcher itself and covers rules that no element maps to)
+        try:
+            core.reset_store()
+            nd, _direct = ruleinfo.parent_for(rn)
+            for a_ in (ruleinfo.shortest_accepted(ruleinfo.automata(rn)) or []):
+                nd.add_child(Node(a_))
+            errs_ = []
+            mrule.Rule(rn).validate_rule(nd, errs_)
+            if errs_:
+                raise AssertionError([str(x[0]) for x in errs_][:3])
+            mrule.Rule(rn).validate_rule(nd)
+        except Exception as ex:  # noqa
+            acc.add_problem(problem("rule_rejects_its_own_witness", {"rule": rn}, expected="a valid node is accepted in both modes",
+                                    observed=repr(ex)[:200], rule=rn))
         # 2. structural grammar
         sp = structural(rn, tab[rn])
         acc.add_problems(sp)
